@@ -164,6 +164,12 @@ def run(tier, seed):
             cid = "%s%d" % (name, j)
             entries.append((cid, doc, cfg))
             meta[cid] = {"family": name, "config": cfg}
+    # the definition every generated-code harness (vgen) is built from: if it stops compiling, the other checks can only report a
+    # tool error, so the compile verdict is taken here
+    zoo = json.load(open(os.path.join(vc.HARNESS, "vgen", "ir", "zoo.json")))
+    for j, cfg in enumerate([{"strip_prefix": "com.palantir.verif"}, {"exhaustive": True, "serialize_empty_collections": True, "strip_prefix": "com.palantir.verif"}]):
+        entries.append(("zoo%d" % j, zoo, cfg))
+        meta["zoo%d" % j] = {"family": "zoo", "config": cfg}
     set_dir = write_set("ir", entries)
     rc, report, errors, other, log = cargo_check(set_dir)
     replayed = 0
